@@ -21,6 +21,7 @@ pub mod c18;
 pub mod c19;
 pub mod c20;
 pub mod csscommon;
+pub mod fuzzsub;
 
 use crate::engine::Property;
 
